@@ -415,6 +415,21 @@ class Check:
         rpath = os.path.join(BUILD, "report%s.%s.%s.json" % ("-" + ALTTAG if ALT else "", self.prop, cmd))
         rc, out, rep = run_harness(path, margs + ["-seed", str(self.seed)] + args, rpath, timeout)
         if rep is None:
+            cur = rpath + ".current"
+            curcase = None
+            if os.path.exists(cur):
+                try:
+                    curcase = json.load(open(cur))
+                except Exception:  # noqa
+                    curcase = None
+            if curcase is not None and curcase.get("property", self.prop) == self.prop:
+                # the process died inside the library while a recorded case was running: that case is the failing input
+                m = re.search(r"^(panic: .*|fatal error: .*)$", out, re.M)
+                self.findings.append({"kind": "oracle", "property": self.prop, "signature": "process-died-" + cmd,
+                                      "what": "the harness process died (rc=%d%s) while running: %s" % (rc, (", " + m.group(1)[:200]) if m else "", curcase.get("what", "")),
+                                      "replay": {"case": curcase.get("replay"), "output_tail": out[-1500:]}})
+                log(out[-1500:])
+                return None
             self.infra_errors.append("harness %s produced no report (rc=%d):\n%s" % (cmd, rc, out[-2000:]))
             log(out[-3000:])
             return None
